@@ -45,7 +45,7 @@ def _budget():
 
 def _domain_text(kind):
     if kind == "single":
-        return seqsem.ma_domain_text(const=True, actions=seqsem.MA_ACTIONS + seqsem.NULLARY_ACTIONS)
+        return seqsem.ma_domain_text(const=True, actions=seqsem.MA_ACTIONS + seqsem.NULLARY_ACTIONS + seqsem.MOVE_ACTIONS)
     return seqsem.ma_domain_text(const=True)
 
 
@@ -313,6 +313,7 @@ def tasks_for(tier, seed):
     # trajectories that come back to a state they have been in (token-identical text of two states)
     for p in ([("take", ["o1", "o2"]), ("drop", ["o1", "o2"]), ("take", ["o1", "o2"])],
               [("take", ["o1", "o2"]), ("drop", ["o1", "o2"]), ("flag", ["o1"])],
+              [("take", ["o1", "o2"]), ("shift", ["o1", "o2", "o2"]), ("shift", ["o1", "o2", "o3"])],
               [("flag", ["o2"]), ("take", ["o1", "o3"]), ("drop", ["o1", "o3"]), ("charge", ["o1"])]):
         for with_problem in (True, False):
             tasks.append({"kind": "single", "plan": p, "allow": True, "with_problem": with_problem, "extra_fluents": EXOTIC_FLUENTS[:1],
